@@ -388,4 +388,136 @@ theorem tlsConvs_optMeta (o : Opts) (b : Bool) (xs : List (Item Keylog.Key)) :
 
 end Meta
 
+-- ------------------------------------------------------------------ carriers are packets of the connection
+section Carriers
+open TLX.Reassembly TLX.Lemmas.Capstone TLX.Lemmas.Pipeline
+
+theorem records_carriers_sub (d : Bytes) (rs : List (Nat × Nat × Nat)) (i : Nat) :
+    ∀ r ∈ records d rs i, ∀ id ∈ r.2, id ∈ rs.map (·.2.2) := by
+  induction hn : d.length - i using Nat.strongRecOn generalizing i with
+  | _ n ih =>
+    intro r hr id hid
+    rw [records] at hr
+    by_cases h0 : d.length ≤ i
+    · rw [if_pos h0] at hr; simp at hr
+    · rw [if_neg h0] at hr
+      rcases List.mem_cons.mp hr with rfl | hr
+      · simp only [carriers, List.mem_map, List.mem_filter] at hid ⊢
+        obtain ⟨x, ⟨hx, _⟩, rfl⟩ := hid
+        exact ⟨x, hx, rfl⟩
+      · have := recLenAt_ge d i
+        exact ih (d.length - (i + recLenAt d i)) (by omega) (i + recLenAt d i) rfl r hr id hid
+
+theorem ranges_ids (buf : List Seg) (s : Nat) : (ranges buf s).map (·.2.2) = buf.map (·.id) := by
+  induction buf generalizing s with
+  | nil => rfl
+  | cons a r ih => simp [ranges, ih]
+
+theorem flush_carriers_sub (buf : List Seg) (recs : List Reassembly.Rec) (h : flush buf = some recs) :
+    ∀ r ∈ recs, ∀ id ∈ r.2, id ∈ buf.map (·.id) := by
+  unfold flush at h
+  split at h
+  · cases h
+  · simp only [Option.some.injEq] at h
+    subst h
+    intro r hr id hid
+    have := records_carriers_sub _ _ _ r hr id hid
+    rwa [ranges_ids] at this
+
+theorem mem_sortBy (key : Seg → Nat) (l : List Seg) (x : Seg) : x ∈ sortBy key l ↔ x ∈ l := by
+  induction l with
+  | nil => simp [sortBy]
+  | cons a r ih =>
+    simp only [sortBy, List.foldr_cons] at ih ⊢
+    rw [Lemmas.ReasmSort.mem_insertBy, ih]
+    simp [eq_comm, or_comm]
+
+theorem deliver_ids (W : Nat) (st : Reassembly.St) (base : Nat) (buf : List Seg) (hout : st.out = []) :
+    (∀ r ∈ (deliver W st base buf).out, ∀ id ∈ r.2, id ∈ buf.map (·.id)) ∧
+    (∀ s ∈ (deliver W st base buf).buf, s ∈ buf ∨ s ∈ st.buf) := by
+  unfold deliver
+  split
+  · exact ⟨by simp [hout], fun s hs => .inr hs⟩
+  · split
+    · exact ⟨by simp [hout], fun s hs => .inl hs⟩
+    · split
+      · exact ⟨by simp [hout], fun s hs => .inl hs⟩
+      · split
+        · exact ⟨by simp [hout], fun s hs => .inl hs⟩
+        · rename_i recs hf
+          refine ⟨?_, by simp⟩
+          simp only [hout, List.nil_append]
+          exact flush_carriers_sub _ recs hf
+
+theorem stepW_ids (W : Nat) (st : Reassembly.St) (p : Seg) :
+    (∀ r ∈ (stepW W { st with out := [] } p).out, ∀ id ∈ r.2, id ∈ (st.buf ++ [p]).map (·.id)) ∧
+    (∀ s ∈ (stepW W { st with out := [] } p).buf, s ∈ st.buf ++ [p]) := by
+  unfold stepW
+  split
+  · exact ⟨by simp, fun s hs => List.mem_append_left _ hs⟩
+  · unfold extract
+    simp only
+    split
+    · rename_i hb; simp at hb
+    · rename_i first rest hb
+      have hd := deliver_ids W { st with out := [], seen := st.seen ++ [p.seq], buf := st.buf ++ [p] }
+        (baseOf W st.next first rest) (sortBy (syncKey W (baseOf W st.next first rest)) (first :: rest)) rfl
+      have hmem : ∀ s, s ∈ sortBy (syncKey W (baseOf W st.next first rest)) (first :: rest) ↔ s ∈ st.buf ++ [p] := by
+        intro s; rw [mem_sortBy, ← hb]
+      refine ⟨?_, ?_⟩
+      · intro r hr id hid
+        have := hd.1 r hr id hid
+        obtain ⟨s, hs, rfl⟩ := List.mem_map.mp this
+        exact List.mem_map.mpr ⟨s, (hmem s).mp hs, rfl⟩
+      · intro s hs
+        rcases hd.2 s hs with h | h
+        · exact (hmem s).mp h
+        · exact h
+
+theorem outs_ids (W : Nat) (st : Reassembly.St) (segs : List Seg) :
+    ∀ r ∈ outs W st segs, ∀ id ∈ r.2, id ∈ (st.buf ++ segs).map (·.id) := by
+  induction segs generalizing st with
+  | nil => simp [outs]
+  | cons p ps ih =>
+    intro r hr id hid
+    simp only [outs, List.mem_append] at hr
+    obtain ⟨h1, h2⟩ := stepW_ids W st p
+    rcases hr with hr | hr
+    · have := h1 r hr id hid
+      simp only [List.map_append, List.mem_append, List.map_cons, List.map_nil, List.mem_cons] at this ⊢
+      rcases this with h | h | h
+      · exact .inl h
+      · exact .inr (.inl h)
+      · simp at h
+    · have := ih _ r hr id hid
+      simp only [List.map_append, List.mem_append, List.mem_map] at this ⊢
+      rcases this with ⟨s, hs, rfl⟩ | h
+      · have := h2 s hs
+        rcases List.mem_append.mp this with h | h
+        · exact .inl ⟨s, h, rfl⟩
+        · simp only [List.mem_singleton] at h; subst h; exact .inr ⟨s, by simp, rfl⟩
+      · obtain ⟨s, hs, rfl⟩ := h
+        exact .inr ⟨s, by simp [hs], rfl⟩
+
+/-- every carrier of a released record is (the tag of) a packet of the connection that travels in the record's direction -/
+theorem released_carrier_tags (info : Nat → Pipeline.Info) (server : Endpoint) (pkts : List Pkt) :
+    ∀ r ∈ released info server (Reassembly.St.init, Reassembly.St.init) pkts, ∀ id ∈ r.1.carriers,
+      ∃ q ∈ pkts, q.tag = id ∧ (q.src == server) = r.2 := by
+  intro r hr id hid
+  have hf := released_filter info server (Reassembly.St.init, Reassembly.St.init) pkts r.2
+  have hmem : ((r.1.raw, r.1.carriers) : Reassembly.Rec) ∈
+      (List.filter (fun q => q.2 == r.2) (released info server (Reassembly.St.init, Reassembly.St.init) pkts)).map
+        (fun q => ((q.1.raw, q.1.carriers) : Reassembly.Rec)) :=
+    List.mem_map.mpr ⟨r, List.mem_filter.mpr ⟨hr, by simp⟩, rfl⟩
+  rw [hf] at hmem
+  have hinit : (if r.2 = true then (Reassembly.St.init, Reassembly.St.init).2 else (Reassembly.St.init, Reassembly.St.init).1)
+      = Reassembly.St.init := by cases r.2 <;> rfl
+  rw [hinit] at hmem
+  have := outs_ids (2 ^ 32) Reassembly.St.init _ _ hmem id hid
+  simp only [Reassembly.St.init, List.nil_append, dirSegs, List.map_map, List.mem_map, List.mem_filter, Function.comp] at this
+  obtain ⟨q, ⟨hq, hd⟩, rfl⟩ := this
+  exact ⟨q, hq, rfl, by simpa using hd⟩
+
+end Carriers
+
 end TLX.Lemmas.ExportProps
